@@ -91,7 +91,10 @@ def run(prog: Program, rep, thorough: bool) -> None:
                 rep.undecided(rule, entry.where, f'focal plane {fp}', 'not named by the statement')
                 continue
             exp_v, exp_h = _expected(fp)
-            units = LINEAR_UNITS if (fp == 'SFP' and rule == 'C19.R1') else ('Mil',)
+            # SFP: all linear units (the tangent units are a recorded assumption there); FFP / LWIR: a linear unit and
+            # the two tangent-based ones - the count must be the ratio of the angles whatever unit the clicks display in
+            units = LINEAR_UNITS if (fp == 'SFP' and rule == 'C19.R1') else \
+                ('Mil', 'CmPer100m', 'InchesPer100Yd') if (fp != 'SFP' and rule == 'C19.R1') else ('Mil',)
             bad: Dict[str, str] = {}
             for unit in units:
                 st = State()
